@@ -125,18 +125,27 @@ def cases(draw, tier):
                 for r in p['roots']:
                     r['steps'] = [s for s in r['steps'] if s['op'] in c01.TIMED and s['op'] not in ('eternity',)]
                 n = 0
+                tie = draw(st.integers(0, 2)) == 0      # several roots fail in the very first time step: the first one counts
                 for i, r in enumerate(p['roots']):
-                    if i == 0 or draw(st.booleans()):
+                    if i == 0 or tie or draw(st.booleans()):
                         n += 1
-                        r['steps'].insert(draw(st.integers(0, len(r['steps']))), {'op': 'raise', 'eid': n, 'cls': draw(st.sampled_from(['E', 'K', 'A']))})
-                if draw(st.integers(0, 2)) == 0 and 'inf' not in json.dumps(p['roots']):
+                        at = 0 if tie else draw(st.integers(0, len(r['steps'])))
+                        if draw(st.integers(0, 4)) == 0:
+                            # the root fails with the TaskCancelled of a task it cancelled and then awaits
+                            r['steps'][at:at] = [{'op': 'scope', 'name': 'tcs%d' % n, 'catch': False,
+                                                  'children': [{'name': 'tcv%d' % n, 'steps': [{'op': 'sleep', 'd': 5}]}],
+                                                  'body': [{'op': 'cancel', 'ref': 'tcv%d' % n},
+                                                           {'op': 'await_task', 'ref': 'tcv%d' % n, 'nocatch': True}]}]
+                        else:
+                            r['steps'].insert(at, {'op': 'raise', 'eid': n, 'cls': draw(st.sampled_from(['E', 'K', 'A']))})
+                if draw(st.integers(0, 1)) == 0 and 'inf' not in json.dumps(p['roots']):
                     p['till'] = 1e12            # a deadline that is never reached must not change how a failure is reported
                 ops.append({'k': 'fail', 'prog': p})
                 if draw(st.integers(0, 2)) == 0:
                     # the same simulation without the failures afterwards (it uses the same date condition objects)
                     q = copy.deepcopy(p)
                     for r in q['roots']:
-                        r['steps'] = [s_ for s_ in r['steps'] if s_['op'] != 'raise']
+                        r['steps'] = [s_ for s_ in r['steps'] if s_['op'] not in ('raise', 'scope')]
                     q.pop('till', None)
                     ops.append({'k': 'ok', 'prog': q})
             elif k == 'leak':
@@ -355,15 +364,13 @@ class C15(Check):
                         out.fail('quiescence', 'gc_run_incomplete', 'run #%d calling gc.collect(): activities did not complete' % n)
             elif k == 'fail':
                 special += 1
-                excs = [e for e in it.log if e[3] == 'exc' and e[1] in names and e[0] <= it.end_seq and e[5] and e[5][0] == 'prog']
+                excs = [e for e in it.log if e[3] == 'exc' and e[1] in names and e[0] <= it.end_seq and e[5] and e[5][0] in ('prog', 'cancelled')]
                 if not excs:
                     special -= 1          # no root reached its failure (it waits for a date that never comes)
                     if oc != 'ok':
                         out.fail('outcome', 'ok_run_%s:%s' % (oc, type(exc).__name__), 'run #%d: %r' % (n, exc))
                 elif oc != 'exc':
                     out.fail('failure', 'not_raised', 'run #%d: roots fail but run() ended %s' % (n, oc))
-                elif prog.get('till') is not None and it.describe(exc) in [e[5] for e in excs if e[4] == excs[0][4]]:
-                    pass        # (roots under a deadline are siblings in a scope: of several failures in one step any may be first)
                 elif not excs or it.describe(exc) != excs[0][5]:
                     out.fail('failure', 'wrong_exception', 'run #%d raised %r, first escaping failure was %r' % (
                         n, it.describe(exc), excs[0][5] if excs else None))
